@@ -124,6 +124,40 @@ fn dispatch(op: &str, args: &[Vec<u8>]) -> Result<Fields> {
                 m.to_string().into_bytes(),
             ]
         }
+        "mnemonic.hunt" => {
+            // massive sampling of the word lookup: `count` pseudo-random lower-case tokens (3..=9 letters, xorshift64* from
+            // `seed`) are put in front of eleven list words; a token passes the lookup iff the phrase is accepted or is
+            // refused for a reason other than "invalid ... word". Returns the tokens that passed, newline separated.
+            let mut x: u64 = text(arg(args, 0)?)?.parse().context("harness: seed")?;
+            let count: u64 = text(arg(args, 1)?)?.parse().context("harness: count")?;
+            let tail = " abandon abandon abandon abandon abandon abandon abandon abandon abandon abandon about";
+            let mut passed = String::new();
+            let mut phrase = String::with_capacity(128);
+            for _ in 0..count {
+                x ^= x >> 12;
+                x ^= x << 25;
+                x ^= x >> 27;
+                let mut r = x.wrapping_mul(0x2545F4914F6CDD1D);
+                let len = 3 + (r % 7) as usize;
+                r /= 7;
+                phrase.clear();
+                for _ in 0..len {
+                    phrase.push((b'a' + (r % 26) as u8) as char);
+                    r /= 26;
+                }
+                let tlen = phrase.len();
+                phrase.push_str(tail);
+                let ok = match Mnemonic::from_phrase(&phrase) {
+                    Ok(_) => true,
+                    Err(e) => !format!("{e:#}").contains("invalid BIP-0039"),
+                };
+                if ok {
+                    passed.push_str(&phrase[..tlen]);
+                    passed.push('\n');
+                }
+            }
+            vec![passed.into_bytes()]
+        }
         "mnemonic.seed" => {
             let m = Mnemonic::from_phrase(text(arg(args, 0)?)?)?;
             let seed = m.seed(text(arg(args, 1)?)?);
